@@ -111,7 +111,7 @@ SMTP_CONFIGS = [{'name': 'all', 'drop': []}, {'name': 'none', 'drop': ['PIPELINI
     [{'name': 'no-' + x, 'drop': [x]} for x in ('PIPELINING', '8BITMIME', 'SMTPUTF8')] + \
     [{'name': 'size50', 'drop': [], 'size': 50}, {'name': 'auth', 'drop': [], 'auth': True}, {'name': 'starttls', 'drop': [], 'tls': True},
      {'name': 'helo-fallback', 'drop': [], 'helo': True}, {'name': 'reuse', 'drop': [], 'reuse': True},
-     {'name': 'no-8BITMIME+encoder', 'drop': ['8BITMIME'], 'encoder': True}]
+     {'name': 'no-8BITMIME+encoder', 'drop': ['8BITMIME'], 'encoder': True}, {'name': 'mx-forced', 'drop': [], 'mx': True}]
 
 
 def smtp_configs(tier):
@@ -242,8 +242,15 @@ def run_smtp_hop(cfg, envs, real=False, queue=None):
             if cfg.get('encoder'):
                 from email.encoders import encode_base64
                 kw['binary_encoder'] = encode_base64
-            relay = StaticSmtpRelay('edge.test', 25, socket_creator=creator, ehlo_as='relay.test', client_class=RC,
-                                    context=VContext(), idle_timeout=5.0 if cfg.get('reuse') else None, **dict(kw, **cfg.get('relay_kw', {})))
+            if cfg.get('mx'):
+                # the MX relay in front of the same client: the next hop is chosen by the first recipient's domain
+                from slimta.relay.smtp.mx import MxSmtpRelay
+                relay = MxSmtpRelay(socket_creator=creator, ehlo_as='relay.test', client_class=RC, context=VContext(), **dict(kw, **cfg.get('relay_kw', {})))
+                for dom in ('x.test', 'caf\u00e9.test'):
+                    relay.force_mx(dom, 'edge.test', 25)
+            else:
+                relay = StaticSmtpRelay('edge.test', 25, socket_creator=creator, ehlo_as='relay.test', client_class=RC,
+                                        context=VContext(), idle_timeout=5.0 if cfg.get('reuse') else None, **dict(kw, **cfg.get('relay_kw', {})))
 
             def go():
                 for env in envs:
@@ -536,7 +543,37 @@ def configs(tier, seed):
         cfgs.append({'t': 'http', 'sweep': sweep})
         cfgs.append({'t': 'http', 'sweep': sweep, 'reuse': True})
     cfgs.append({'t': 'verdict'})
+    cfgs.append({'t': 'default-socket'})
     return cfgs
+
+
+def check_default_socket():
+    """A relay built WITHOUT a socket_creator (the sockets the library opens itself) against a loopback SMTP server that
+    answers the end of data 0.6 s late, connect timeout 0.2 s, command/data timeouts 8 s -- in a process of its own, real
+    loop: the reply the server gave (250) is the result the relay reports."""
+    import os
+    import subprocess
+    import sys
+    here = os.path.dirname(os.path.dirname(os.path.abspath(__file__)))
+    repo = os.environ.get('VERIF_REPO', '/repo')
+    try:
+        p = subprocess.run([sys.executable, os.path.join(here, 'conformance', 'default_socket.py'), repo, 'slow-eod'],
+                           stdout=subprocess.PIPE, stderr=subprocess.DEVNULL, timeout=90)
+    except subprocess.TimeoutExpired:
+        return 'skipped', [({'transport': 'smtp', 'config': 'default-socket', 'kind': 'attempt-never-returned'},
+                            'relay built without a socket_creator, server answers the end of data 0.6 s late: still blocked after 90 s')]
+    out = p.stdout.decode('utf-8', 'replace')
+    line = [l for l in out.splitlines() if l.startswith('RESULT ')]
+    if not line and 'SKIP' in out:
+        return 'skipped', []
+    if not line:
+        return 'failed', [({'transport': 'smtp', 'config': 'default-socket', 'kind': 'probe-failed'}, 'default-socket probe produced no result (exit %d)' % p.returncode)]
+    what = line[0].split()[1]
+    if what != 'returned':
+        return what, [({'transport': 'smtp', 'config': 'default-socket', 'kind': 'reply-misreported', 'reported': what},
+                       'relay built without a socket_creator (connect timeout 0.2 s, command/data timeouts 8 s); the server accepts the message '
+                       'with 250 but answers the end of data 0.6 s late: the relay reports %s' % what)]
+    return what, []
 
 
 def run_config(cfg, tier, seed):
@@ -544,6 +581,15 @@ def run_config(cfg, tier, seed):
     if cfg['t'] == 'verdict':
         check_verdicts(res)
         res.sample({'edge_queue_verdicts': [c for c, t in VERDICTS], 'transports': ['smtp', 'http']})
+        return res.as_dict()
+    if cfg['t'] == 'default-socket':
+        what, vs = check_default_socket()
+        res.evaluations += 1
+        res.count('default_socket_probe_' + what)
+        res.interesting(('default-socket', what))
+        for sig, msg in vs:
+            res.violation(sig, msg, {'t': 'default-socket'})
+        res.sample({'default_socket_probe': what})
         return res.as_dict()
     items = list(envelopes(cfg['sweep']))
     if cfg['t'] == 'smtp':
@@ -687,6 +733,11 @@ def vacuity(counters, tier):
 
 
 def replay(rep):
+    if rep.get('t') == 'default-socket':
+        what, vs = check_default_socket()
+        if vs:
+            return True, vs[0][1]
+        return False, 'the relay reports the reply the server gave (%s)' % what
     if rep.get('t') == 'verdict':
         res = Result()
         check_verdicts(res)
